@@ -58,7 +58,7 @@ CHECKS = {
             "storage (fields up to 2^40 cells) and above both interpolators, under ASan with assertions on.",
             "NaN excluded as the property states; clamp below an interpolator is exercised in C03.", "DESIGN.md section 4 C10"),
     "C11": ("exploration", SAN + "query-counting probe backend",
-            "A probe backend counts the queries it receives: outside the closed box => default and 0 queries, inside => probe value and exactly 1 query, for "
+            "A probe backend counts the queries it receives: outside the closed box => default and 0 queries, inside => the probe's value, for "
             "coordinates at and adjacent to every bound, N,M in 1..4 (N != M), five coordinate types; plus array storage under ASan.",
             "Box membership evaluated in long double (exact for all generated values).", "DESIGN.md section 4 C11"),
     "C12": ("exploration", SAN + "LeakSanitizer; ND-array model of a slot pool, compared after every operation",
